@@ -38,40 +38,117 @@ Alts(op) == CASE op = "opA" -> << [scheme |-> "key", scopes |-> <<"ska">>] >>
 Secured(op) == Alts(op) # << >>
 ScopesAt(op, i) == IF i \in DOMAIN Alts(op) THEN Alts(op)[i].scopes ELSE <<"?">>
 
-(* A request: [op, id, body, ctype, accept, cs (credential scheme), cu (credential user)] *)
-(* Only well-formed, admissible requests are scheduled (the refusal paths   *)
-(* are C02's); cs must be a scheme of some alternative of the operation.    *)
+(* A request: [op, id, body, ctype, accept, cs, cu, rt, q, h]                            *)
+(*   cs/cu : credential scheme / user; cu = "bad": the authenticator rejects it;         *)
+(*           cs = "-": no credential                                                     *)
+(*   ctype : "json" | "text" | "xml" (not admitted: 415) | "bad" (unparsable: 400)       *)
+(*   accept: "json" | "text" | "none" (matches no offer: 406)                            *)
+(*   rt    : "ok" | "404" (no such path) | "405" (path known under another method)      *)
+(*   q     : "ok" | "bad" (integer query parameter n is not a number: 422)              *)
+(*   h     : "ok" | "err" (the handler returns an error with status 418)                *)
+(* The refusal classes take precedence in the order of the pipeline:                     *)
+(*   routing > security > content type > accept > parameters > handler                  *)
 Admits(op, cs) == \E i \in DOMAIN Alts(op) : Alts(op)[i].scheme = cs
 AdmittingAlt(op, cs) == CHOOSE i \in DOMAIN Alts(op) : Alts(op)[i].scheme = cs
-
-(* Stage names in execution order for a request.                            *)
-AuthCalls(in) == [i \in 1..AdmittingAlt(in.op, in.cs) |-> "authcall"]
-Stages(in) ==
-  <<"route">>
-  \o (IF Secured(in.op) THEN AuthCalls(in) \o <<"alt", "principal">> ELSE << >>)
-  \o (IF HasBody(in.op) THEN <<"ctype", "consumer">> ELSE << >>)
-  \o <<"format">>
-  \o (IF HasBody(in.op) THEN <<"consume">> ELSE << >>)
-  \o <<"bound", "handle", "format", "respond", "produce", "done">>
 
 NoneStr == "-"
 IdOf(in) == IF HasId(in.op) THEN in.id ELSE NoneStr      \* the path parameter, if the route has one
 DataOf(in) == IF HasId(in.op) THEN in.id ELSE in.body    \* what the test handler returns
 
+AuthOK(in) == Secured(in.op) /\ in.cs # NoneStr /\ Admits(in.op, in.cs) /\ in.cu # "bad"
+AuthCallsOf(in) == IF AuthOK(in) THEN AdmittingAlt(in.op, in.cs) ELSE Len(Alts(in.op))
+
+Routed(in)      == in.rt = "ok"
+AuthRefused(in) == Routed(in) /\ Secured(in.op) /\ ~AuthOK(in)
+Reaches(in)     == Routed(in) /\ ~AuthRefused(in)                   \* binding is reached
+CtParseErr(in)  == Reaches(in) /\ HasBody(in.op) /\ in.ctype = "bad"
+CtUnadmitted(in) == Reaches(in) /\ HasBody(in.op) /\ in.ctype = "xml"
+CtErr(in)       == CtParseErr(in) \/ CtUnadmitted(in)
+AcceptErr(in)   == Reaches(in) /\ ~CtErr(in) /\ in.accept = "none"
+ParamsReached(in) == Reaches(in) /\ ~CtErr(in) /\ ~AcceptErr(in)
+ParamErr(in)    == ParamsReached(in) /\ in.q = "bad"
+Valid(in)       == ParamsReached(in) /\ ~ParamErr(in)
+HandlerErr(in)  == Valid(in) /\ in.h = "err"
+
+Status(in) ==
+  CASE in.rt = "404" -> "404" [] in.rt = "405" -> "405"
+    [] AuthRefused(in) -> "401"
+    [] CtParseErr(in) -> "400" [] CtUnadmitted(in) -> "415"
+    [] AcceptErr(in) -> "406"
+    [] ParamErr(in) -> "422"
+    [] HandlerErr(in) -> "418"
+    [] OTHER -> "200"
+
+(* Request families used by MCServePipeline and GenServePipeline: the k-th concurrent request has  *)
+(* its own id, body, media types and user (so that cross-talk is visible); it varies over the       *)
+(* operation/credential kind and over what is wrong with it.                                        *)
+Profiles == <<[ctype |-> "json", accept |-> "json", cu |-> "u1"],
+              [ctype |-> "text", accept |-> "text", cu |-> "u2"],
+              [ctype |-> "json", accept |-> "text", cu |-> "u1"]>>
+OpCreds == { <<"opA", "key">>, <<"opB", NoneStr>>, <<"opC", "key">>, <<"opC", "tok">>, <<"opD", "key">> }
+DefectKinds == {"none", "404", "405", "badcred", "nocred", "xml", "badct", "noaccept", "badparam", "handlererr"}
+
+Req(k, op, c) == [op |-> op, id |-> "i" \o ToString(k), body |-> "b" \o ToString(k),
+                  ctype |-> Profiles[k].ctype, accept |-> Profiles[k].accept,
+                  cs |-> c, cu |-> Profiles[k].cu, rt |-> "ok", q |-> "ok", h |-> "ok"]
+
+WithDefect(r, d) ==
+  CASE d = "none"       -> r
+    [] d = "404"        -> [r EXCEPT !.rt = "404"]
+    [] d = "405"        -> [r EXCEPT !.rt = "405"]
+    [] d = "badcred"    -> [r EXCEPT !.cu = "bad"]
+    [] d = "nocred"     -> [r EXCEPT !.cs = NoneStr]
+    [] d = "xml"        -> [r EXCEPT !.ctype = "xml"]
+    [] d = "badct"      -> [r EXCEPT !.ctype = "bad"]
+    [] d = "noaccept"   -> [r EXCEPT !.accept = "none"]
+    [] d = "badparam"   -> [r EXCEPT !.q = "bad"]
+    [] d = "handlererr" -> [r EXCEPT !.h = "err"]
+
+RECURSIVE WithDefects(_, _)
+WithDefects(r, ds) == IF ds = {} THEN r
+                      ELSE LET d == CHOOSE x \in ds : TRUE IN WithDefects(WithDefect(r, d), ds \ {d})
+Consistent(ds) == /\ ~({"404", "405"} \subseteq ds) /\ ~({"xml", "badct"} \subseteq ds)
+                  /\ ~({"badcred", "nocred"} \subseteq ds) /\ "none" \notin ds
+
+\* a defect that does not apply to the operation (credentials of an unsecured one, body of a GET) is left out
+DefectApplies(op, d) == /\ (d \in {"badcred", "nocred"} => Secured(op))
+                        /\ (d \in {"xml", "badct"} => HasBody(op))
+
+(* Respond with an error: the format is negotiated (and stored) only when the Accept header admits an offer *)
+RespondErr(in) == (IF in.accept # "none" THEN <<"format">> ELSE << >>) \o <<"respond", "done">>
+
+(* Stage names in execution order for a request.                            *)
+AuthCalls(in) == [i \in 1..AuthCallsOf(in) |-> "authcall"]
+Stages(in) ==
+  IF ~Routed(in) THEN RespondErr(in)
+  ELSE <<"route">> \o
+    (IF Secured(in.op) THEN AuthCalls(in) ELSE << >>) \o
+    (IF AuthRefused(in) THEN RespondErr(in)
+     ELSE (IF Secured(in.op) THEN <<"alt", "principal">> ELSE << >>)
+       \o (IF HasBody(in.op) /\ ~CtParseErr(in) THEN <<"ctype">> ELSE << >>)
+       \o (IF HasBody(in.op) /\ ~CtErr(in) THEN <<"consumer">> ELSE << >>)
+       \o (IF ~CtErr(in) /\ ~AcceptErr(in) THEN <<"format">> ELSE << >>)
+       \o (IF ParamsReached(in) /\ HasBody(in.op) THEN <<"consume">> ELSE << >>)
+       \o <<"bound">>
+       \o (IF Valid(in)
+           THEN <<"handle", "format", "respond">> \o (IF in.h = "ok" THEN <<"produce">> ELSE << >>) \o <<"done">>
+           ELSE RespondErr(in)))
+
 (* ---- state ------------------------------------------------------------- *)
-(* s = [in, pc, mr, cx, sh]                                                 *)
+(* s = [in, stg, pc, mr, cx, sh]                                            *)
 EmptyMR == [params |-> NoneStr, consumer |-> NoneStr, alt |-> 0]
 EmptyCX == [scopes |-> << >>, bid |-> NoneStr, bbody |-> NoneStr]
 
 InitState(ins) ==
   [in |-> ins,
+   stg |-> [r \in DOMAIN ins |-> Stages(ins[r])],   \* computed once (TLC does not memoise operators)
    pc |-> [r \in DOMAIN ins |-> 1],
    mr |-> [r \in DOMAIN ins |-> EmptyMR],
    cx |-> [r \in DOMAIN ins |-> EmptyCX],
    sh |-> [params |-> NoneStr, consumer |-> NoneStr, alt |-> 0, bid |-> NoneStr, bbody |-> NoneStr]]
 
-Finished(s, r) == s.pc[r] > Len(Stages(s.in[r]))
-Stage(s, r) == Stages(s.in[r])[s.pc[r]]
+Finished(s, r) == s.pc[r] > Len(s.stg[r])
+Stage(s, r) == s.stg[r][s.pc[r]]
 
 \* field access honouring SharedField
 RdParams(s, r)   == IF SharedField = "params"   THEN s.sh.params   ELSE s.mr[r].params
@@ -82,7 +159,7 @@ RdBbody(s, r)    == IF SharedField = "bound"    THEN s.sh.bbody    ELSE s.cx[r].
 
 \* which authenticator is consulted by the k-th authcall of request r
 AuthCallIndex(s, r) ==   \* number of authcall stages among the first pc[r] stages
-  Cardinality({i \in 1..s.pc[r] : Stages(s.in[r])[i] = "authcall"})
+  Cardinality({i \in 1..s.pc[r] : s.stg[r][i] = "authcall"})
 
 (* The state after request r performs its next stage.                       *)
 StepState(s, r) ==
@@ -119,12 +196,14 @@ StepObs(s, r) ==
        [] k = "consumer"  -> <<in.ctype>>
        [] k = "format"    -> <<in.accept>>
        [] k = "consume"   -> <<RdConsumer(s, r), in.body>>
-       [] k = "bound"     -> <<RdParams(s, r), IF HasBody(in.op) THEN in.body ELSE NoneStr>>
+       [] k = "bound"     -> IF Valid(in) THEN <<RdParams(s, r), IF HasBody(in.op) THEN in.body ELSE NoneStr>>
+                             ELSE <<"invalid">>
        [] k = "handle"    -> <<RdBid(s, r), RdBbody(s, r)>>
                              \o (IF Secured(in.op) THEN <<in.cs, in.cu>> \o s.cx[r].scopes ELSE << >>)
-       [] k = "respond"   -> <<in.accept>>
+       [] k = "respond"   -> <<IF in.accept = "none" THEN "" ELSE in.accept>>
        [] k = "produce"   -> <<in.accept, DataOf(in)>>
-       [] k = "done"      -> <<"200", in.accept, DataOf(in)>>
+       [] k = "done"      -> IF Status(in) = "200" THEN <<"200", in.accept, DataOf(in)>>
+                             ELSE <<Status(in), "json", "err">>    \* errors.ServeError always answers JSON
 
 (* The observations of a request that runs alone.                           *)
 RECURSIVE SoloFrom(_, _)
